@@ -62,11 +62,17 @@ def _len(I, args, kw):
             return ex.call_repo_function(FuncRef(r[1], r[3], cls=(r[1], r[2]), qual=f"{r[2].name}.__len__"), [v], {}, v, None)
         raise Unsupported(f"len of {v!r}")
     if isinstance(v, SAny):
-        I.use("len(opaque) >= 0, may raise TypeError")
-        if not ex.pure and ex.decide(ex.fresh("len_fails", "bool").t):
-            ex.raise_builtin("TypeError", "len()")
-        n = ex.fresh("len", "int")
-        ex.assume(n.t >= 0)
+        I.use("len(opaque) = len_of(x) >= 0 (uninterpreted); raises TypeError unless the object is sized")
+        F_len = z3.Function("len_of", ObjSort, IntSort)
+        if not ex.pure and ex.contract.obj_protocol != "mapping":
+            sized = z3.Function("is_sized", ObjSort, BoolSort)(v.t)
+            if not ex.decide(sized):
+                ex.raise_builtin("TypeError", "len()")
+        n = SInt(F_len(v.t))
+        key = ("len_of", v.t.sexpr())
+        if key not in ex.facts_seen:
+            ex.facts_seen.add(key)
+            ex.assume(n.t >= 0)
         return n
     if isinstance(v, (SInt, SBool, SReal)) or v is None or isinstance(v, (int, float)):
         ex.raise_builtin("TypeError", "len() of number/None")
@@ -463,6 +469,8 @@ def _dict(I, args, kw):
         src = args[0]
         if isinstance(src, HDict) and src.concrete is not None:
             d.update(src.concrete)
+        elif isinstance(src, HDict) and not kw:
+            return HDict(ksort=src.ksort, vkind=src.vkind, has=src.has, val=src.val, order=src.order)
         else:
             raise Unsupported("dict() of symbolic mapping")
     d.update(kw)
